@@ -4,6 +4,7 @@ import (
 	"encoding/json"
 	"fmt"
 	"sort"
+	"verif.local/simrt"
 
 	pt "github.com/weedbox/pokertable"
 )
@@ -168,17 +169,23 @@ func (m *tableMon) judgeAction(j *judgedAction, err error, who string) {
 		m.w.be.suppress = true
 		var err2 error
 		var j2 judgedAction
-		j2 = m.preAction(j.id, j.action, j.amt)
-		err2 = m.w.rawAct(j.id, j.action, j.amt)
-		m.postAction(&j2, err2)
+		okAtomic := simrt.Atomic(func() {
+			gc2, ev2 := m.preLight()
+			j2 = m.preAction(j.id, j.action, j.amt)
+			err2 = m.w.rawAct(j.id, j.action, j.amt)
+			m.postAction(&j2, err2)
+			m.recordAction(j.id, j.action, j.amt, err2, gc2, ev2)
+		})
 		m.w.be.suppress = false
 		m.w.be.forceFail = save
+		if !okAtomic {
+			m.markNotAtomic(j2.gc)
+		}
 		c.Judged("C13.retry")
 		if err2 != nil && err2.Error() == errInjected.Error() {
 			c.Viol("C13", "C13.retry_failed", nil, "retry of %s %s returned the injected error again without a new injection", j.id, j.action)
 			return
 		}
-		m.recordAction(j.id, j.action, j.amt, err2, j2.gc, "?")
 		c.Logf("RETRY %s %s -> %v", j.id, j.action, err2)
 		if err2 == nil {
 			c.Probe("retry_after_backend_failure_succeeded")
@@ -284,6 +291,15 @@ func (m *tableMon) preLight() (int, string) {
 	return gc, ""
 }
 
+func (m *tableMon) markNotAtomic(gc int) {
+	if h := m.hands[gc]; h != nil {
+		h.recordUnreliable = true
+	}
+	if m.cur != nil {
+		m.cur.recordUnreliable = true
+	}
+}
+
 func (m *tableMon) recordAction(id, action string, amt int64, err error, gc int, evKey string) {
 	c := m.c
 	h := m.hands[gc]
@@ -323,6 +339,13 @@ func (m *tableMon) memberBefore() *memberSnap {
 	return s
 }
 
+// topupInvoke registers a buy-in / re-buy / add-on as in flight (its effect may become visible in
+// snapshots published before the call returns).
+func (m *tableMon) topupInvoke(id string, amt int64) {
+	m.pendingTopup = &topup{id: id, amt: amt, invokeSeq: m.c.Seq()}
+	m.topups = append(m.topups, m.pendingTopup)
+}
+
 func (m *tableMon) memberAfter(kind string, before, after *memberSnap, atomic bool, err error, joins []pt.JoinPlayer, leaves []string) {
 	c := m.c
 	tb := m.w.eng.GetTable()
@@ -331,11 +354,37 @@ func (m *tableMon) memberAfter(kind string, before, after *memberSnap, atomic bo
 		// the call had to wait for the engine lock: before/after are not a before/after picture of it
 		c.Inconc("not_atomic")
 	}
+	tu := m.pendingTopup
+	m.pendingTopup = nil
+	if tu != nil && (kind == "reserve" || kind == "redeem") {
+		if err != nil || !before.ids[tu.id] {
+			// refused, or a first buy-in (not a top-up of an existing bankroll): forget it
+			for i, x := range m.topups {
+				if x == tu {
+					m.topups = append(m.topups[:i], m.topups[i+1:]...)
+					break
+				}
+			}
+			tu = nil
+		} else {
+			tu.returnSeq = retSeq
+		}
+	}
 	if err != nil {
 		if atomic {
 			c.Judged("C03.member_op")
 			if after.table != before.table {
-				c.Viol("C03", "C03.failed_op_left_trace", map[string]any{"op": kind, "part": "table"}, "%s returned %v but the table changed: %s", kind, err, firstDiff(before.table, after.table))
+				facts := map[string]any{"op": kind, "part": "table"}
+				if kind == "update" {
+					gone := len(leaves) > 0
+					for _, id := range leaves {
+						if after.ids[id] {
+							gone = false
+						}
+					}
+					facts["leaves_applied_joins_refused"] = gone
+				}
+				c.Viol("C03", "C03.failed_op_left_trace", facts, "%s returned %v but the table changed: %s", kind, err, firstDiff(before.table, after.table))
 			} else if after.sm != before.sm {
 				c.Viol("C03", "C03.failed_op_left_trace", map[string]any{"op": kind, "part": "seat_manager"}, "%s returned %v but the seat manager changed: %s => %s", kind, err, before.sm, after.sm)
 			}
@@ -351,7 +400,9 @@ func (m *tableMon) memberAfter(kind string, before, after *memberSnap, atomic bo
 	for _, jp := range joins {
 		m.in += jp.RedeemChips
 		if before.ids[jp.PlayerID] {
-			m.topups = append(m.topups, &topup{id: jp.PlayerID, amt: jp.RedeemChips, invokeSeq: before.seq, returnSeq: retSeq})
+			if kind == "update" {
+				m.topups = append(m.topups, &topup{id: jp.PlayerID, amt: jp.RedeemChips, invokeSeq: before.seq, returnSeq: retSeq})
+			}
 			if before.inHand {
 				c.Probe("topup_while_hand_in_progress")
 			}
@@ -521,44 +572,38 @@ func (m *tableMon) audit() {
 	} else {
 		m.persist("reset", "")
 	}
-	// C08: wedge
-	if m.waitingNext && st.Status == pt.TableStateStatus_TableGameStandby && m.c08off == "" && !m.engineFailed {
-		live, alive := 0, 0
-		for _, p := range st.PlayerStates {
-			if p.Bankroll > 0 {
-				alive++
-				if p.IsIn {
-					live++
-				}
-			}
-		}
+	// C08: wedge. The premises must have held continuously since the settlement (the statement
+	// evaluates them when the continue interval elapses; membership may change afterwards).
+	if m.waitingNext && st.Status == pt.TableStateStatus_TableGameStandby && m.c08off == "" && !m.engineFailed && len(m.blinds) == 0 {
+		open, pause := m.continueConditions(tb)
+		m.obligedOpen = m.obligedOpen && open
+		m.obligedPause = m.obligedPause && pause
 		deadline := m.lastSettledMs + int64(w.cfg.interval)*1000 + specOpenGameTimeoutS*1000 + specSlackMs + m.extraMs + w.be.SleptMs
-		shouldPause := st.BlindState.Level == -1 || alive < tb.Meta.TableMinPlayerCount
-		if now > deadline && !shouldPause && live >= 2 && st.BlindState.Level != 0 && len(m.blinds) == 0 {
+		if now > deadline && m.obligedOpen {
 			c.Judged("C08.progress")
 			parts := -1
 			if g := pt.VerifOpenGameManager(w.eng); g != nil {
 				parts = len(g.GetState().Participants)
 			}
-			survivors := 0
-			if m.cur != nil && m.cur.settled != nil {
-				for _, id := range m.cur.roster {
-					for _, p := range st.PlayerStates {
-						if p.PlayerID == id && p.Bankroll > 0 {
-							survivors++
+			smLive, smActive := 0, 0
+			if sm := pt.VerifSeatManager(w.eng); sm != nil {
+				for _, sp := range sm.Seats() {
+					if sp != nil && sp.IsIn && sp.HasChips {
+						smLive++
+						if sp.Active() {
+							smActive++
 						}
 					}
 				}
 			}
-			val := fmt.Sprintf("%d", st.GameCount)
-			if m.persist("wedge", val) {
-				c.Viol("C08", "C08.wedge_standby", map[string]any{"gate_has_two_participants": parts >= 2, "survivors_of_last_hand_ge2": survivors >= 2},
-					"hand %d settled at %dms, continue interval %ds, open-game timeout %ds: at %dms the table is still in standby with %d seated-in players with chips (gate participants %d, survivors of the last hand %d)",
-					st.GameCount, m.lastSettledMs, w.cfg.interval, specOpenGameTimeoutS, now, live, parts, survivors)
+			if m.persist("wedge", fmt.Sprint(st.GameCount)) {
+				c.Viol("C08", "C08.wedge_standby", map[string]any{"gate_has_two_participants": parts >= 2, "rotation_blocked_by_waiting_flags": smLive >= 2 && smActive < 2},
+					"hand %d settled at %dms, continue interval %ds, open-game timeout %ds: at %dms the table is still in standby although at least two seated-in players have had chips ever since (gate participants %d)",
+					st.GameCount, m.lastSettledMs, w.cfg.interval, specOpenGameTimeoutS, now, parts)
 			}
-		} else if now > deadline && shouldPause {
-			if m.persist("nopause", fmt.Sprint(st.GameCount)) && len(m.blinds) == 0 {
-				c.Viol("C08", "C08.did_not_pause", nil, "hand %d settled at %dms; the table should pause (level %d, %d players with chips, minimum %d) but is still in standby at %dms", st.GameCount, m.lastSettledMs, st.BlindState.Level, alive, tb.Meta.TableMinPlayerCount, now)
+		} else if now > deadline && m.obligedPause {
+			if m.persist("nopause", fmt.Sprint(st.GameCount)) {
+				c.Viol("C08", "C08.did_not_pause", nil, "hand %d settled at %dms; the pause condition (break, or fewer players with chips than the minimum %d) has held ever since, but the table is still in standby at %dms", st.GameCount, m.lastSettledMs, tb.Meta.TableMinPlayerCount, now)
 			}
 		}
 	} else {
